@@ -182,20 +182,24 @@ theorem readElem_long (dec : Dec) (p pre rest : Bytes) (eo el : Nat) (hp : p.len
     rw [this]
     exact slice_mid _ p rest _ _ (by simp) (by omega)
 
-/-- the code's rule for an empty varlena element is the Spec's -/
-theorem decodeVarlenaElem_view (dec : Dec) (p : Bytes) (eo : Nat) :
+/-- the code's rule for an empty varlena element is the Spec's, for every element type but xml (oid 142): the code also
+maps an empty xml element to the empty string, but xml is the element type of no array type of the table (xml[] is not
+supported), so the Spec — written from the table's types — says nothing special about it -/
+theorem decodeVarlenaElem_view (dec : Dec) (p : Bytes) (eo : Nat) (heo : eo ≠ 142) :
     decodeVarlenaElem dec p eo = elemView dec eo (.short p) ∧ decodeVarlenaElem dec p eo = elemView dec eo (.long p) := by
   unfold decodeVarlenaElem
   by_cases hp : p.length = 0
-  · by_cases h1 : eo = 25 ∨ eo = 1043 ∨ eo = 1042 ∨ eo = 142
-    · simp [elemView, emptyValue, hp, h1]
-    · by_cases h2 : eo = 17
+  · by_cases h1 : eo = 25 ∨ eo = 1043 ∨ eo = 1042
+    · have h1' : eo = 25 ∨ eo = 1043 ∨ eo = 1042 ∨ eo = 142 := by omega
+      simp [elemView, emptyValue, hp, h1, h1']
+    · have h1' : ¬ (eo = 25 ∨ eo = 1043 ∨ eo = 1042 ∨ eo = 142) := by omega
+      by_cases h2 : eo = 17
       · simp [elemView, emptyValue, hp, h2]
-      · simp [elemView, emptyValue, hp, h1, h2]
+      · simp [elemView, emptyValue, hp, h1, h1', h2]
   · simp [elemView, hp]
 
 /-- one stored element of a well-formed array, whatever its form -/
-theorem readElem_enc (dec : Dec) (t : ElemType) (d : Datum) (hd : d.WF t) (pre rest : Bytes) (eo : Nat) :
+theorem readElem_enc (dec : Dec) (t : ElemType) (d : Datum) (hd : d.WF t) (pre rest : Bytes) (eo : Nat) (heo : eo ≠ 142) :
     readElem dec (pre ++ (d.enc ++ rest)) eo (if t.typlen > 0 then t.typlen.toNat else 0) (decide (t.typlen > 0)) pre.length
       = (do let v ← elemView dec eo d; pure (some (v, pre.length + d.enc.length))) := by
   cases d with
@@ -207,12 +211,12 @@ theorem readElem_enc (dec : Dec) (t : ElemType) (d : Datum) (hd : d.WF t) (pre r
   | short p =>
     obtain ⟨h1, h2⟩ := hd
     have : decide (t.typlen > 0) = false := by rw [h1]; decide
-    rw [this, ← (decodeVarlenaElem_view dec p eo).1]
+    rw [this, ← (decodeVarlenaElem_view dec p eo heo).1]
     exact readElem_short dec p pre rest eo _ h2
   | long p =>
     obtain ⟨h1, h2⟩ := hd
     have : decide (t.typlen > 0) = false := by rw [h1]; decide
-    rw [this, ← (decodeVarlenaElem_view dec p eo).2]
+    rw [this, ← (decodeVarlenaElem_view dec p eo heo).2]
     exact readElem_long dec p pre rest eo _ h2
 
 /-! ### the element loop -/
@@ -220,7 +224,7 @@ theorem readElem_enc (dec : Dec) (t : ElemType) (d : Datum) (hd : d.WF t) (pre r
 /-- The offset invariant of the element loop, in varlena-relative coordinates (`abs = raw + 4`): when the loop stands
 before the elements `es`, whose encoding begins at the aligned position `pre.length + 4`, with an offset that aligns to
 that position, it returns exactly the view of `es`. -/
-theorem parseElems_enc (dec : Dec) (t : ElemType) (al : Nat) (hal : Pow2Align al) (eo : Nat) (nulls : Option Bytes)
+theorem parseElems_enc (dec : Dec) (t : ElemType) (al : Nat) (hal : Pow2Align al) (eo : Nat) (heo : eo ≠ 142) (nulls : Option Bytes)
     (es : List (Option Datum)) (pre : Bytes) (i off : Nat)
     (hwf : ∀ e ∈ es, ∀ d, e = some d → d.WF t)
     (hoff : alignRel off al = pre.length)
@@ -248,7 +252,7 @@ theorem parseElems_enc (dec : Dec) (t : ElemType) (al : Nat) (hal : Pow2Align al
     | some d =>
       have hd : d.WF t := hwf (some d) (by simp) d rfl
       simp only [ok_bind, Option.isNone_some, Bool.false_eq_true, if_false, encElems, viewElems]
-      rw [hoff, readElem_enc dec t d hd pre _ eo]
+      rw [hoff, readElem_enc dec t d hd pre _ eo heo]
       cases hdec : elemView dec eo d with
       | error err => rfl
       | ok v =>
@@ -360,7 +364,7 @@ theorem bitmap_slice (a : PgArray) (hlb : a.lbounds.length = a.dims.length) (hN 
   · simp [encDims_length, encLbounds_length, hlb]; omega
   · simp [PgArray.present]
 
-theorem decodeArray_nonempty (dec : Dec) (a : PgArray) (eo : Nat)
+theorem decodeArray_nonempty (dec : Dec) (a : PgArray) (eo : Nat) (heo : eo ≠ 142)
     (hne : a.dims ≠ []) (h6 : a.dims.length ≤ 6) (hlb : a.lbounds.length = a.dims.length)
     (hds : ∀ d ∈ a.dims, 1 ≤ d) (hcount : a.elems.length = prod a.dims) (hmax : a.elems.length ≤ maxArraySize)
     (hwf : ∀ e ∈ a.elems, ∀ d, e = some d → d.WF a.et) (hal : Pow2Align a.et.typalign)
@@ -406,7 +410,7 @@ theorem decodeArray_nonempty (dec : Dec) (a : PgArray) (eo : Nat)
     have hst : a.dataStart = 16 + 8 * a.dims.length := by unfold PgArray.dataStart; rw [hN]; rfl
     rw [hdo, if_neg (by decide)]
     rw [hsplit, ← hhdr]
-    rw [parseElems_enc dec a.et a.et.typalign hal eo none a.elems (hdrPart a) 0 (12 + a.dims.length * 8) hwf
+    rw [parseElems_enc dec a.et a.et.typalign hal eo heo none a.elems (hdrPart a) 0 (12 + a.dims.length * 8) hwf
       (by unfold alignRel; rw [alignGo_eq _ _ hal, alignUp_of_mod _ _ hal (mod_of_mod8 _ _ hal (by omega))]; omega)
       (mod_of_mod8 _ _ hal (by omega))
       (fun j e hj => by
@@ -421,7 +425,7 @@ theorem decodeArray_nonempty (dec : Dec) (a : PgArray) (eo : Nat)
     rw [hdo, if_pos (by omega), if_neg (by omega), bitmap_slice a hlb hN]
     simp only [ok_bind]
     rw [hsplit, ← hhdr]
-    rw [parseElems_enc dec a.et a.et.typalign hal eo (some (encBitmap a.present)) a.elems (hdrPart a) 0 _ hwf
+    rw [parseElems_enc dec a.et a.et.typalign hal eo heo (some (encBitmap a.present)) a.elems (hdrPart a) 0 _ hwf
       (by unfold alignRel; rw [alignGo_eq _ _ hal, alignUp_of_mod _ _ hal (mod_of_mod8 _ _ hal (by omega))]; omega)
       (mod_of_mod8 _ _ hal (by omega))
       (fun j e hj => by
@@ -439,6 +443,9 @@ theorem spec_layout : ∀ t ∈ pgArrayTypes,
     arrayElemTypes.lookup t.arrayOid = some t.decodeAs ∧
     elemLayout t.decodeAs = ((if t.typlen > 0 then t.typlen.toNat else 0), decide (t.typlen > 0), t.typalign) := by decide
 
+/-- xml is the element type of no array type of the table -/
+theorem spec_not_xml : ∀ t ∈ pgArrayTypes, t.decodeAs ≠ 142 := by decide
+
 /-- the whole of DecodeType on the encoding of a well-formed array -/
 theorem decodeType_enc (dec : Dec) (a : PgArray) (h : a.WF) :
     decodeType dec (encArray a) a.et.arrayOid = view dec a := by
@@ -455,6 +462,6 @@ theorem decodeType_enc (dec : Dec) (a : PgArray) (h : a.WF) :
     have hl : a.lbounds = [] := List.eq_nil_of_length_eq_zero (by rw [hlb, hd]; rfl)
     rw [decodeArray_empty dec a hd hl hcnt.1 hcnt.2, hcnt.1]; rfl
   · rw [if_neg hd] at hcnt
-    exact decodeArray_nonempty dec a a.et.decodeAs hd h6 hlb hds hcnt hmax hwf hal hlay
+    exact decodeArray_nonempty dec a a.et.decodeAs (spec_not_xml a.et het) hd h6 hlb hds hcnt hmax hwf hal hlay
 
 end PgVerif.Proofs.Arrays
